@@ -427,7 +427,7 @@ func buildHooked(sp *Spec, offsetHook func(rev, num, off int) int) (*pdfw.Built,
 			inStm[op.Num] = op.InStm
 		}
 		rs := pdfw.RevSpec{Set: set, Free: free, XRefStream: rp.Stream, InObjStm: inStm, ObjStms: rp.Conts, ObjStmFlate: rp.StmZ,
-			XRefFlate: rp.XRefZ, Shuffle: rp.Shuffle, NoHead: rp.NoHead}
+			XRefFlate: rp.XRefZ, Shuffle: rp.Shuffle, NoHead: rp.NoHead, TableAfterStream: true}
 		if rp.Repack {
 			rs.RepackOld = w.OldestContainer()
 		}
